@@ -48,6 +48,11 @@ def strategy_impl(draw, tier, nonreversed=False):
         "reverse_axes": draw(st.booleans()),
         "flag_style": draw(st.sampled_from(["python", "python", "numpy", "int"])),   # type of the reverse flags / face numbers in the links
         "carry_coords": draw(st.booleans()),   # the input carries the dataset's coordinates (face labels included) or none
+        # rule and fill value spelled per axis: the axis that is not operated on gets a fill value of its own and the same
+        # or another rule (unlinked edges obey the rule of *their* axis)
+        "per_axis": draw(st.booleans()),
+        "other_rule": draw(st.sampled_from(["same", "same", "fill", "extend"])),
+        "other_fill": draw(st.sampled_from([-77.0, 13.5, 1.0e3])),
     }
 
 
@@ -101,9 +106,14 @@ def check(case, ctx):
     G = np.asarray(case["values"], dtype=np.float64)
     A = T.cut(G, Kx, Ky, N, orients)
     ds, gc = make_ds(N, nf, case["extra"])
+    bnd, fil = case["boundary"], case["fill"]
+    if case.get("per_axis"):
+        a_, o_ = "XY"[case["axis"]], "XY"[1 - case["axis"]]
+        bnd = {a_: case["boundary"], o_: case["boundary"] if case["other_rule"] == "same" else case["other_rule"]}
+        fil = {a_: case["fill"], o_: case["other_fill"]}
     kw = {}
     if case["bsrc"] == "grid":
-        kw = {"boundary": case["boundary"], "fill_value": case["fill"]}
+        kw = {"boundary": bnd, "fill_value": fil}
     has_links = any(l is not None for per in table.values() for sides in per.values() for l in sides)
     fc = gen.table_to_xgcm(table_json(table), face_order=case.get("face_order"), reverse_axes=case.get("reverse_axes", False), flag_style=case.get("flag_style", "python")) if has_links else None
     grid = must_return("Grid construction", Grid, ds, coords=gc, face_connections=fc, autoparse_metadata=False, periodic=False, **kw)
@@ -113,7 +123,7 @@ def check(case, ctx):
         da = da.assign_coords({d: ds[d] for d in da.dims if d in ds.coords})
     ckw = {"to": case["to"]}
     if case["bsrc"] == "call":
-        ckw.update(boundary=case["boundary"], fill_value=case["fill"])
+        ckw.update(boundary=dict(bnd) if isinstance(bnd, dict) else bnd, fill_value=dict(fil) if isinstance(fil, dict) else fil)
     got = must_return(f"Grid.{case['op']}", getattr(grid, case["op"]), da, "XY"[case["axis"]], **ckw)
     exp, crossed = T.scalar_reference(G, Kx, Ky, N, orients, case["px"], case["py"], case["op"], case["axis"], case["to"],
                                       case["boundary"], case["fill"])
